@@ -114,6 +114,22 @@ func (conn *obfs4Conn) readPackets() error {
 	rdLen, rdErr := conn.Conn.Read(conn.readBuffer)
 	conn.receiveBuffer.Write(conn.readBuffer[:rdLen])
 
+	err := conn.processReceiveBuffer()
+
+	// Read errors (all fatal) take priority over various frame processing
+	// errors.
+	if rdErr != nil {
+		return rdErr
+	}
+
+	return err
+}
+
+// processReceiveBuffer decodes as many frames as possible out of the receive
+// buffer, and handles the packets contained therein.  framing.ErrAgain is
+// returned when the buffer ends with an incomplete frame, all other errors
+// are fatal.
+func (conn *obfs4Conn) processReceiveBuffer() error {
 	var (
 		decoded [framing.MaximumFramePayloadLength]byte
 		err     error
@@ -169,12 +185,6 @@ bufferLoop:
 		default:
 			// Ignore unknown packet types.
 		}
-	}
-
-	// Read errors (all fatal) take priority over various frame processing
-	// errors.
-	if rdErr != nil {
-		return rdErr
 	}
 
 	return err
